@@ -176,26 +176,29 @@ def weight_full(model, m, aff_shape):
 
 
 def bayes(logp, pi, mask=None, eps=0.0):
-    """gamma_k = pi_k exp(L_k) [mask_k] / sum_j ...; loops over every (leading index, frame)."""
+    """gamma_k = pi_k exp(L_k) [mask_k] / sum_j ...; loops over every (leading index, frame).
+    Evaluated in the log domain over the classes that can contribute (active, weight > 0, finite
+    log-density) so that neither an inactive nor a zero-weight class can make the others underflow."""
     logp = np.asarray(logp, dtype=float)
     K, N = logp.shape[-2:]
     lead = logp.shape[:-2]
     out = np.zeros(logp.shape)
     for idx in np.ndindex(*lead):
         for n in range(N):
-            col = [logp[idx + (k, n)] for k in range(K)]
-            act = [col[k] for k in range(K) if mask is None or mask[idx + (k, n)]]
-            mx = max(act) if act and max(act) > -math.inf else 0.0     # shift over the active classes only
-            g = []
+            t = {}
             for k in range(K):
                 if mask is not None and not mask[idx + (k, n)]:
-                    v = 0.0
-                else:
-                    v = math.exp(col[k] - mx) * float(pi[idx + (k, n)]) if col[k] != -math.inf else 0.0
-                g.append(v)
-            s = max(sum(g), TINY)
+                    continue
+                w = float(pi[idx + (k, n)])
+                L = float(logp[idx + (k, n)])
+                if w > 0 and L != -math.inf:
+                    t[k] = L + math.log(w)
+            if t:
+                mx = max(t.values())
+                g = {k: math.exp(v - mx) for k, v in t.items()}
+                s = sum(g.values())
             for k in range(K):
-                v = g[k] / s
+                v = g[k] / s if (t and k in t) else 0.0
                 if eps:
                     v = min(max(v, eps), 1 - eps)
                 out[idx + (k, n)] = v
